@@ -1576,6 +1576,11 @@ fn neighbour_caps(cfg: &Cfg) -> Vec<packet::Capability> {
 /// OPEN + KEEPALIVE of the remote speaker.  Hold time one hour on both sides: no timer fires
 /// during a run (hold time 0 is avoided: a negotiated 0 makes the daemon arm a 0 s hold timer, C08's finding)
 fn open_bytes(cfg: &Cfg) -> Result<Vec<u8>, String> {
+    open_bytes_with(cfg, None)
+}
+
+/// OPEN, then (optionally) an UPDATE that arrives before the session is established, then KEEPALIVE
+fn open_bytes_with(cfg: &Cfg, early: Option<&[u8]>) -> Result<Vec<u8>, String> {
     let open = bgp::Message::Open(bgp::Open {
         as_number: peer_as(cfg),
         holdtime: HoldTime::new(HOLD_S as u16).unwrap_or(HoldTime::DISABLED),
@@ -1585,6 +1590,9 @@ fn open_bytes(cfg: &Cfg) -> Result<Vec<u8>, String> {
     let mut codec = bgp::PeerCodec::new();
     let mut tx = BytesMut::with_capacity(512);
     codec.encode_to(&open, &mut tx).map_err(|_| "OPEN does not encode".to_string())?;
+    if let Some(u) = early {
+        tx.extend_from_slice(u);
+    }
     codec.encode_to(&bgp::Message::Keepalive, &mut tx).map_err(|_| "KEEPALIVE does not encode".to_string())?;
     Ok(tx.to_vec())
 }
@@ -1751,6 +1759,13 @@ impl SockConn {
     }
 
     async fn establish(&mut self) -> Result<(), HErr> {
+        match self.establish_with(None).await? {
+            Outcome::Alive => Ok(()),
+            Outcome::Reset(n) => Err(HErr::Setup(format!("session did not establish (NOTIFICATION {:?})", n))),
+        }
+    }
+
+    async fn establish_with(&mut self, early: Option<&[u8]>) -> Result<Outcome, HErr> {
         let addr = self.listener.local_addr().map_err(|e| HErr::Setup(e.to_string()))?;
         let client = TcpStream::connect(addr).await.map_err(|e| HErr::Setup(format!("connect: {}", e)))?;
         let (server, _) = self.listener.accept().await.map_err(|e| HErr::Setup(format!("accept: {}", e)))?;
@@ -1767,12 +1782,9 @@ impl SockConn {
         self.task = Some(tokio::spawn(async move { session.run(g2, atx).await }));
         self.client = Some(client);
         self.rx.clear();
-        let mut first = open_bytes(&self.cfg).map_err(HErr::Setup)?;
+        let mut first = open_bytes_with(&self.cfg, early).map_err(HErr::Setup)?;
         first.extend_from_slice(&sentinel_msg(&self.cfg, 0xffff_fff0));
-        match self.exchange(&first, 0xffff_fff0).await? {
-            Outcome::Alive => Ok(()),
-            Outcome::Reset(n) => Err(HErr::Setup(format!("session did not establish (NOTIFICATION {:?})", n))),
-        }
+        self.exchange(&first, 0xffff_fff0).await
     }
 
     /// wait for the session task; a panic of the task is re-raised here (the caller runs under guard())
@@ -1900,6 +1912,13 @@ impl DirectConn {
     /// the session object accept_connection would hand to `run` for this neighbour,
     /// taken through the real FSM: Connected, then OPEN and KEEPALIVE as octets
     async fn establish(&mut self) -> Result<(), HErr> {
+        match self.establish_with(None).await? {
+            Outcome::Alive => Ok(()),
+            Outcome::Reset(n) => Err(HErr::Setup(format!("direct session did not establish (NOTIFICATION {:?})", n))),
+        }
+    }
+
+    async fn establish_with(&mut self, early: Option<&[u8]>) -> Result<Outcome, HErr> {
         let cfg = self.cfg;
         self.tables = Arc::new(TableManager::new(1));
         self.rxbuf.clear();
@@ -1940,12 +1959,9 @@ impl DirectConn {
         let (_, effects) = s.apply_outputs(outputs, self.lsa, self.rsa).await;
         s.process_effects(effects, &self.global).await;
         self.sess = Some(s);
-        let mut first = open_bytes(&cfg).map_err(HErr::Setup)?;
+        let mut first = open_bytes_with(&cfg, early).map_err(HErr::Setup)?;
         first.extend_from_slice(&sentinel_msg(&cfg, 0xffff_fff0));
-        match self.exchange(&first, 0xffff_fff0).await? {
-            Outcome::Alive => Ok(()),
-            Outcome::Reset(n) => Err(HErr::Setup(format!("direct session did not establish (NOTIFICATION {:?})", n))),
-        }
+        self.exchange(&first, 0xffff_fff0).await
     }
 
     /// The loop of run_select's readable arm (daemon/src/event/mod.rs, `Ok(_) => loop { ... }`),
@@ -2043,6 +2059,12 @@ impl Conn {
         match self {
             Conn::Sock(c) => c.establish().await,
             Conn::Direct(c) => c.establish().await,
+        }
+    }
+    async fn establish_with(&mut self, early: Option<&[u8]>) -> Result<Outcome, HErr> {
+        match self {
+            Conn::Sock(c) => c.establish_with(early).await,
+            Conn::Direct(c) => c.establish_with(early).await,
         }
     }
     async fn exchange(&mut self, batch: &[u8], tag: u32) -> Result<Outcome, HErr> {
@@ -2722,12 +2744,57 @@ async fn template_round(pool: &mut Pool, st: &mut St, rng: &mut Rng, only: Optio
     Ok(())
 }
 
+/// An UPDATE (valid or corrupted) that arrives after OPEN but before the KEEPALIVE that
+/// establishes the session must not install anything (RFC 4271: FSM error).  The UPDATE is
+/// followed by KEEPALIVE + sentinel, so a daemon that swallowed it is seen by state, too.
+async fn early_update(st: &mut St, rng: &mut Rng) -> Result<(), HErr> {
+    let t = gen_template(rng);
+    if !announces(&t) {
+        return Ok(());
+    }
+    let faults = if rng.bool() { Vec::new() } else { choose_faults(&t, rng, None) };
+    let bytes = build(&t, &faults).bytes;
+    if walk(&bytes) == Walk::FramingBad {
+        return Ok(());
+    }
+    let mut conn = if st.mode == "socket" { Conn::Sock(Box::new(SockConn::new(t.cfg).await?)) } else { Conn::Direct(Box::new(DirectConn::new(t.cfg))) };
+    st.in_flight = vec![format!("(after OPEN, before KEEPALIVE) {}", hex(&bytes))];
+    st.in_flight_session = t.cfg.name();
+    let out = conn.establish_with(Some(&bytes)).await?;
+    let rib = conn.rib();
+    st.in_flight.clear();
+    st.rep.eval();
+    st.rep.count(&format!("e2e:early-update:checked:{}", st.mode));
+    st.rep.count(if out == Outcome::Alive { "e2e:early-update:session-survived" } else { "e2e:early-update:session-reset" });
+    if !rib.is_empty() {
+        let w = Json::obj(vec![
+            ("mode", Json::s(st.mode)),
+            ("session", Json::s(t.cfg.name())),
+            ("sequence", Json::s("OPEN, this UPDATE, KEEPALIVE, sentinel UPDATE")),
+            ("update_hex", Json::s(hex(&bytes))),
+            ("faults", Json::strs(faults.iter().map(|f| format!("attr {} {} {:?}", f.code, f.kind(), f.k)))),
+            ("observed", Json::s(format!("{:?}; Adj-RIB-In = {}", out, describe_rib(&rib)))),
+        ]);
+        st.rep.violation(
+            "C05/e2e/never-installs/0/update-before-established",
+            &format!("an UPDATE received before the session was established left a route in the RIB [{} {}]", st.mode, t.cfg.name()),
+            w,
+        );
+    }
+    conn.close().await
+}
+
 /// runs templates until the count / budget is used up; returns early on a harness error
 async fn epoch(st: &mut St, rng: &mut Rng, only: Option<&str>, stop_at: f64) {
     let mut pool = Pool { conns: BTreeMap::new(), dirty: BTreeMap::new() };
     while st.templates_left > 0 && st.rep.elapsed() < stop_at {
         st.templates_left -= 1;
-        match template_round(&mut pool, st, rng, only).await {
+        let r = if st.templates_left % 16 == 3 && only.is_none() {
+            early_update(st, rng).await
+        } else {
+            template_round(&mut pool, st, rng, only).await
+        };
+        match r {
             Ok(()) => {}
             Err(HErr::Watchdog(w)) => {
                 st.rep.count("harness:watchdog");
